@@ -44,6 +44,10 @@ Definition region (c : cfg) (f : list N) (i : nat) : list N :=
 Definition count_pieces (pl L : nat) : nat :=
   match pl with 0 => 0 | _ => (L + pl - 1) / pl end.
 
+(* a metainfo as core.NewMetaInfo builds it: positive piece length, ceil(L/pl) piece sums *)
+Definition wf_cfg (c : cfg) : bool :=
+  Nat.ltb 0 (c_pl c) && Nat.eqb (npieces c) (count_pieces (c_pl c) (c_len c)).
+
 (* ---- generic list helpers *)
 Fixpoint upd {A} (i : nat) (v : A) (l : list A) : list A :=
   match l, i with
